@@ -195,7 +195,9 @@ class MEIExporter:
             staff_el.set(XMLNS_ID, "staff-" + self.elc_id())
             if staff not in unique_staffs:
                 continue
-            staff_notes = note_or_rest_elements[staff_inverse_map == i]
+            # select by staff number (staff_inverse_map indexes unique_staffs,
+            # which differs from i when a lower staff is empty in this measure)
+            staff_notes = note_or_rest_elements[staffs == staff]
             # Separate by voice
             voices = np.vectorize(lambda x: x.voice)(staff_notes)
             unique_voices, voice_inverse_map = np.unique(voices, return_inverse=True)
